@@ -69,7 +69,7 @@ def restart_case(ctx, rng, spec):
 def run_case(ctx, n):
   rng = ctx.rng('case', n)
   params = seqrun.pick_params(rng, ctx.tier)
-  spec = cg.gen_spec(rng, p_init=rng.choice([0.3, 0.6, 0.9]), p_clause=rng.choice([0.6, 0.85, 1.0]), **params)
+  spec = cg.gen_spec(rng, p_init=rng.choice([0.3, 0.6, 0.9]), p_clause=rng.choice([0.6, 0.85, 1.0]), clause_queries=n % 3 == 0, **params)
   if n % 4 == 3:
     ctx.distinct(('restart', spec['n'], n % 97))
     return restart_case(ctx, rng, spec)
